@@ -170,7 +170,7 @@ def run(chk):
             allstr.add("~")
     prefixes = {s for s in allstr if re.fullmatch(r"[A-Z]+_?", s) or s == "~"}
     keywords |= {s for s in prefixes if s != "~"}
-    chk.floor("R-CHUNK-VOCAB", "writer chunk keywords / prefixes", len(keywords), 6)
+    chk.floor("R-CHUNK-VOCAB", "writer chunk keywords / prefixes", len(keywords), 4)
     # reader vocabulary
     rstr = set()
     for bi, t in rb.calls():
@@ -309,7 +309,7 @@ def run(chk):
             desc = show(eb2.operand(opnd))[:80]
             chk.finding("IcyDraw::to_bytes|trunc|%s as %s|%s" % (fty.get("n", "char"), tty["n"], desc), rule="R-NO-TRUNC", where="%s:%s" % (wb.file, line),
                         fn="IcyDraw::to_bytes", what="narrowing cast of a value with interval %s to %s may lose information" % (iv, tty["n"]))
-    chk.floor("R-NO-TRUNC", "narrowing casts in the writer", nnarrow, 8)
+    chk.floor("R-NO-TRUNC", "narrowing casts in the writer", nnarrow, 5)
     # ------------------------------------------------------------------ R-DEFAULT-SKIP
     isd = f.method("palette_handling::Palette", "is_default")
     if chk.anchor(isd is not None, "R-DEFAULT-SKIP", "anchor missing: Palette::is_default"):
@@ -342,7 +342,7 @@ def run(chk):
     ALLOWED_SKIP = {"buffers::Buffer::has_sauce": "a buffer without SAUCE data has nothing to put into a SAUCE chunk",
                     "palette_handling::Palette::is_default": "the loader starts from the default palette; exactness of is_default is R-DEFAULT-SKIP"}
     chunk_sites = [(bi, t) for bi, t in wb.calls() if (t["callee"].get("resolved") or "").endswith("add_ztxt_chunk")]
-    chk.floor("R-CHUNK-GUARD", "chunk write sites in the writer", len(chunk_sites), 8)
+    chk.floor("R-CHUNK-GUARD", "chunk write sites in the writer", len(chunk_sites), 5)
     preds = {}
     for bi, t in chunk_sites:
         for d in wb.control_deps(bi):
